@@ -17,6 +17,13 @@ def main (args : List String) : IO UInt32 := do
   | ["model", "--concat-repaired"] =>
     modelLoop (← IO.getStdin) (← IO.getStdout) { cfg := { concatRepaired := true } }
     return 0
+  | ["struct", opsFile, obsFile] =>
+    let ops ← IO.FS.lines opsFile
+    let obs ← IO.FS.lines obsFile
+    let out ← IO.getStdout
+    for i in [0:ops.size] do
+      out.putStrLn (structLine ops[i]! (obs.getD i ""))
+    return 0
   | ["judge", opsFile, obsFile] =>
     let ops ← IO.FS.lines opsFile
     let obs ← IO.FS.lines obsFile
@@ -30,6 +37,7 @@ def main (args : List String) : IO UInt32 := do
       out.putStrLn s!"REJECT {r.prop} line={r.line} {r.msg}"
     out.putStrLn ("STATS " ++ j.stats.json)
     out.putStrLn ("PURE " ++ j.pm.json)
+    out.putStrLn ("PURE " ++ j.tm.json)
     return 0
   | ["gen", profile, seed, count, len] =>
     let lines := genProfile profile seed.toNat! count.toNat! len.toNat!
